@@ -112,6 +112,7 @@ func ZZ_C19_Capsule() {
 	// queries are unknown at 30-120 s); the sample point, radius and segment parameter are symbolic
 	segs := [][2]vector3.Float64{
 		{vector3.New(0., 0., 0.), vector3.New(1., 0., 0.)},
+		{vector3.New(0.5, 0.25, 0.), vector3.New(0.5, 0.25, 0.000244140625)}, // a very short segment (2^-12)
 		{vector3.New(0., 0., -3.), vector3.New(0., 0., 4.)},
 		{vector3.New(-1., 2., 0.5), vector3.New(2., -2., 0.5)},
 		{vector3.New(1., 1., 1.), vector3.New(3., 3., 2.)},
